@@ -2,7 +2,7 @@ import Driver.Proto
 import ScrapliModel.Channel
 import ScrapliModel.Generated.Patterns
 import ScrapliModel.Generated.Consts
-namespace Driver
+namespace Driver.C01
 open Scrapli Scrapli.Chan
 
 def stripAnsi (b : Bytes) : Bytes := Rx.replaceAll Gen.Rx.Util.ansiPattern b []
@@ -67,4 +67,4 @@ def handleC01 : List String → String
     | none => "bad-op"
   | _ => "bad-op"
 
-end Driver
+end Driver.C01
